@@ -49,6 +49,8 @@ ASSUMPTIONS = [
 
 
 KNOWN_KEY = "recursive-stream-fold-catches-up"
+# what the late iterations do: the trace grows, and the bodies of the new iterations call / forward
+KNOWN_KINDS = ("redelivery-changes-trace", "redelivery-requests", "redelivery-next-peers")
 
 
 def history_profile(rng):
@@ -69,7 +71,7 @@ def gen_cases(rng, tier, escalate=False):
         c["level"] = "handler"
         cases.append(c)
     n_hist = {"quick": 500, "thorough": 12000}[tier] * (3 if escalate else 1)
-    n_model = {"quick": 2, "thorough": 60}[tier]
+    n_model = {"quick": 2, "thorough": 20}[tier]
     for k in range(n_hist):
         prof = history_profile(rng)
         c = exec_common.history_case(rng, prof, n_ops=rng.choice([8, 14, 24]), oracles=["C07"])
@@ -118,7 +120,7 @@ def evaluate(cases, result, tier):
     for f in result["oracle_fail"][n0:]:
         f["case"]["level"] = "history"
         d = f.get("detail") or {}
-        known = d.get("key") == "redelivery-changes-trace" and merge_common.recursive_stream_folds(f["case"].get("script", ""))
+        known = d.get("key") in KNOWN_KINDS and merge_common.recursive_stream_folds(f["case"].get("script", ""))
         f["key"] = KNOWN_KEY if known else None
         kk = "history/oracle " + str(d.get("key")) + (" (known: %s)" % KNOWN_KEY if known else "")
         dist[kk] = dist.get(kk, 0) + 1
